@@ -94,6 +94,12 @@ def oracle_flatten(case: dict) -> Outcome:
     d = build_tree(case["tree"], [0])
     nleaves = count_leaves(d)
     out.nontrivial = depth(d) >= 2 and nleaves >= 2
+    if case.get("primer"):
+        try:
+            unflatten(flatten(_twin(d)))
+        except Exception:  # noqa: BLE001 - out-of-domain input, only there to vary the call history
+            pass
+        out.classes.append("after_equal_keys_of_other_types")
     ok, f = call_sut(out, "C16.flatten", "flatten", lambda: flatten(d))
     if not ok:
         return out
@@ -151,6 +157,12 @@ def build_obj(r: Any, counter: list, M: Any, shift: float = 0.0) -> Any:
         # a 2-D state tensor that is a transposed view (non-contiguous); in-place loading must still reach it
         counter[0] += 1
         return (torch.arange(6, dtype=torch.float32).reshape(3, 2) + float(counter[0]) + shift).t()
+    if tag == "al":
+        # two different tensors that overlap in memory and start at the same address: a leading-row view listed before the matrix it belongs to
+        # (a module that keeps both a buffer and a window into it)
+        counter[0] += 1
+        base = torch.arange(6, dtype=torch.float32).reshape(3, 2) + float(counter[0]) + shift
+        return [base[0], base] if r[1] else (base, base[0])
     if tag == "s":
         return r[1]
     if tag == "l":
@@ -326,7 +338,25 @@ def strategy_flatten():
         return st.lists(st.tuples(_keys(), children), max_size=4, unique_by=lambda kv: (type(_key(kv[0])).__name__, repr(_key(kv[0])))).map(lambda l: {"d": [list(x) for x in l]})
 
     leafy = st.recursive(node(st.just("t")), lambda ch: node(st.one_of(st.just("t"), ch)), max_leaves=25)
-    return st.fixed_dictionaries({"tree": leafy})
+    return st.fixed_dictionaries({"tree": leafy, "primer": st.sampled_from([False, False, False, True])})
+
+
+def _twin(d: Any) -> Any:
+    """The same nesting with every integer key replaced by a key that compares (and hashes) equal but has another type: 1 -> True, 0 -> False,
+    n -> float(n).  Such keys are outside the property's domain; the twin is only flattened *before* the real case so that the process has a
+    different call history (flatten / unflatten must be pure functions of their argument)."""
+    if not isinstance(d, dict):
+        return d
+    out = {}
+    for k, v in d.items():
+        if isinstance(k, bool) or not isinstance(k, int):
+            kk = k
+        elif k in (0, 1):
+            kk = bool(k)
+        else:
+            kk = float(k)
+        out[kk] = _twin(v)
+    return out
 
 
 def _values(allow_module: bool = True):
@@ -346,7 +376,7 @@ def _values(allow_module: bool = True):
             opts.append(st.lists(st.tuples(names, ch), max_size=3, unique_by=lambda kv: kv[0]).map(lambda l: ["m", [list(x) for x in l]]))
         return st.one_of(*opts)
 
-    base = st.one_of(st.just(["t"]), st.just(["t"]), st.just(["tt"]), st.sampled_from([["s", 3], ["s", "txt"], ["s", 2.5], ["s", None], ["s", True]]))
+    base = st.one_of(st.just(["t"]), st.just(["t"]), st.just(["tt"]), st.sampled_from([["al", True], ["al", False]]), st.sampled_from([["s", 3], ["s", "txt"], ["s", 2.5], ["s", None], ["s", True]]))
     return st.recursive(base, ext, max_leaves=14), names
 
 
